@@ -84,6 +84,28 @@ partial def patSexp : Pat → Sexp
   | .refCond g y n => mk "refcond" [ofNat g, patSexp y, patSexp n]
   | .exprCond c y n => mk "exprcond" [patSexp c, patSexp y, patSexp n]
 
+/-- some alternation of the tree has two adjacent branches (Concatenates of at least two children) whose first
+    children are the same loop with `M == N` in DIFFERENT kinds: what the second reduction of the ending walk does
+    with them depends on which of the loops `findAndMakeLoopsAtomic` made atomic (see `samePrefix`); the two
+    readings `fk` cover "none / all of them", this predicate names the patterns where a mixed outcome is possible
+    (driver glue, diagnostic) -/
+partial def kindSensitive : RNode → Bool
+  | .alt _ cs =>
+    let firsts := cs.map firstOf
+    let rec adj : List (Option RNode) → Bool
+      | some a :: some b :: rest => (samePrefix true a b && !samePrefix false a b) || adj (some b :: rest)
+      | _ :: rest => adj rest
+      | [] => false
+    adj firsts || cs.any kindSensitive
+  | .cat _ cs => cs.any kindSensitive
+  | .loop _ _ _ b => kindSensitive b
+  | .cap _ b => kindSensitive b
+  | .look _ _ b => kindSensitive b
+  | .atomic b => kindSensitive b
+  | .refCond _ y n => kindSensitive y || kindSensitive n
+  | .exprCond c y n => kindSensitive c || kindSensitive y || kindSensitive n
+  | _ => false
+
 /-- remove the bump-along markers (driver glue) -/
 partial def stripBump : RNode → RNode
   | .alt o cs => .alt o (cs.map stripBump)
@@ -129,7 +151,7 @@ def handleC05Rw (args : List Sexp) : Option String :=
   | [.atom "step", on, rtl, pa, n] =>
     match on.bool?, rtl.bool?, pa.bool?, rnode? n with
     | some on, some rtl, some pa, some n =>
-      some (toString (Sexp.list [.atom "ok", rnodeSexp (reduceNode true on rtl (size n + 2) pa n)]))
+      some (toString (Sexp.list [.atom "ok", rnodeSexp (reduceNode true false on rtl (size n + 2) pa n)]))
     | _, _, _, _ => some "(bad-args)"
   | _ => none
 
